@@ -58,4 +58,52 @@ fn run(ctx: &mut Ctx) {
     bk::enumerate_depth1(ctx, &relevant, &judge);
     let depth = ctx.tier.pick(3, 5);
     bk::enumerate_history(ctx, depth, &judge);
+    precision_family(ctx);
+}
+
+/// Inference under declared commodity precisions: the omitted posting absorbs the EXACT remainder, not the
+/// remainder rounded to the commodity's display precision. All transactions of 2 (full C01 alphabet: sub-precision
+/// values, costs, lot prices) and 3 (reduced alphabet; thorough: 60 shapes) postings with exactly one omitted
+/// posting x 3 precision contexts, judged by C01's comparison of per-posting amounts and balances.
+fn precision_family(ctx: &mut Ctx) {
+    use super::c01;
+    use crate::refledger::P;
+    let full = c01::alphabet();
+    let red = c01::reduced(&full, ctx.tier.pick(40, 60));
+    let precs: Vec<Prec> = vec![[("X", 2u32)].into_iter().collect(), [("X", 0u32)].into_iter().collect(), [("X", 2u32), ("Y", 0u32)].into_iter().collect()];
+    const ACCTS: [&str; 3] = ["P1", "P2", "P3"];
+    let mut emit = |ctx: &mut Ctx, prec: &Prec, ps: &[&P]| {
+        if ps.iter().filter(|p| p.is_omitted()).count() != 1 {
+            return;
+        }
+        if !ctx.next_is_mine() {
+            ctx.skip_cases(1);
+            return;
+        }
+        let txn: Txn = ps.iter().enumerate().map(|(i, p)| { let mut q = (*p).clone(); q.acct = ACCTS[i]; q }).collect();
+        let (desc, run) = c01::judge_case(prec, &[], &txn);
+        ctx.case(|| format!("[omitted posting under declared precision]\n{}", desc), move || {
+            let o = run();
+            // re-label: in this family the pass classes say what was inferred
+            match o.verdict {
+                crate::fw::Verdict::Pass => Outcome::pass(format!("precision/{}", o.class)),
+                crate::fw::Verdict::DontCare => Outcome::dont_care(format!("precision/{}", o.class)),
+                crate::fw::Verdict::Violation { sig, detail } => Outcome::violation(format!("precision/{}", sig), detail),
+            }
+        });
+    };
+    for prec in &precs {
+        for a in &full {
+            for b in &full {
+                emit(ctx, prec, &[a, b]);
+            }
+        }
+        for a in &red {
+            for b in &red {
+                for c in &red {
+                    emit(ctx, prec, &[a, b, c]);
+                }
+            }
+        }
+    }
 }
